@@ -11,8 +11,8 @@
 EXTENDS StormFfi, Json, IOUtils, TLCExt
 
 Rec == ndJsonDeserialize(IOEnv.TRACE)
-VARIABLES tl, tpend, tkind
-tvars == <<vars, tl, tpend, tkind>>
+VARIABLES tl, tpend, tkind, tacq
+tvars == <<vars, tl, tpend, tkind, tacq>>
 
 \* the handle the pending call of thread t is going to return (see NextId in StormFfi)
 TrNextId(t) ==
@@ -22,6 +22,7 @@ TrNextId(t) ==
     ELSE 0
 
 TInit == Init /\ tl = 1 /\ tpend = [t \in Threads |-> FALSE] /\ tkind = "seq"
+         /\ tacq = [t \in Threads |-> <<>>]
 
 Ev == Rec[tl]
 Advance == tl' = tl + 1 /\ TLCSet(1, Max(TLCGet(1), tl + 1))
@@ -38,12 +39,14 @@ T_Reset ==
     /\ vclosed' = {}
     /\ tpend' = [t \in Threads |-> FALSE]
     /\ tkind' = Ev.kind
+    /\ tacq' = [t \in Threads |-> <<>>]
     /\ Advance
 
 T_Inv ==
     /\ Ev.ev = "Inv" /\ ~tpend[Ev.th]
     /\ Invoke(Ev.th, Ev.fn, Ev.h, Ev.name, Ev.n1, IF Ev.fn = "OpenArchive" THEN 16 ELSE Ev.n2, Ev.dat)
     /\ tpend' = [tpend EXCEPT ![Ev.th] = TRUE]
+    /\ tacq' = [tacq EXCEPT ![Ev.th] = <<>>]
     /\ Advance /\ UNCHANGED tkind
 
 ToSet(q) == {q[i] : i \in 1..Len(q)}
@@ -65,6 +68,14 @@ RustAgrees(e) ==
 \* without the race having to fire.
 LockOrderRespected(e) ==
     e.lt => \A i \in 1..Len(e.locks) : AcqRespects(e.locks[i].l, ToSet(e.locks[i].held))
+\* ... and the whole lock trace of the call EQUALS the spec's: tacq[t] collects, for every step the model took for this
+\* call, the lock it requested and the locks the thread held at that moment (StormFfi!Requests / HeldBy).  A call that
+\* releases a lock earlier than the spec says (e.g. SFileOpenFileEx dropping ARCHIVES before the insert into FILES) or
+\* takes an extra one is rejected single-threaded, without any race having to fire.
+LockHeldAcross(e) ==
+    e.lt => /\ Len(e.locks) = Len(tacq[e.th])
+            /\ \A i \in 1..Len(e.locks) : /\ e.locks[i].l = tacq[e.th][i].l
+                                          /\ ToSet(e.locks[i].held) = tacq[e.th][i].held
 RetOk(e) ==
     /\ e.st = "ok"                        \* no hang, abort or panic
     /\ e.canary                           \* nothing written outside the caller's buffer
@@ -74,7 +85,8 @@ RetOk(e) ==
     /\ OutMatches(e, vret[e.th])
     /\ RustAgrees(e)
     /\ LockOrderRespected(e)
-Why(e) == IF ~LockOrderRespected(e) THEN "lockorder" ELSE IF ~e.canary THEN "canary" ELSE IF ~e.nul THEN "nul" ELSE IF e.ret # vret[e.th].ret THEN "ret"
+    /\ LockHeldAcross(e)
+Why(e) == IF ~LockOrderRespected(e) THEN "lockorder" ELSE IF ~LockHeldAcross(e) THEN "lockheld" ELSE IF ~e.canary THEN "canary" ELSE IF ~e.nul THEN "nul" ELSE IF e.ret # vret[e.th].ret THEN "ret"
           ELSE IF ~OutMatches(e, vret[e.th]) THEN "out" ELSE IF ~RustAgrees(e) THEN "rust" ELSE "other"
 T_Ret ==
     /\ Ev.ev = "Ret" /\ tpend[Ev.th] /\ vpc[Ev.th] = "Idle"
@@ -83,7 +95,7 @@ T_Ret ==
     /\ IF Ev.err = vret[Ev.th].err THEN TRUE
        ELSE PrintT(<<"DRIFT", tl, Ev.fn \o ": last error " \o Ev.err \o ", model " \o vret[Ev.th].err>>)
     /\ tpend' = [tpend EXCEPT ![Ev.th] = FALSE]
-    /\ Advance /\ UNCHANGED <<vars, tkind>>
+    /\ Advance /\ UNCHANGED <<vars, tkind, tacq>>
 \* Single-thread histories are deterministic except for the model's explicit choices: a returned call whose observation differs from the model's
 \* result is reported (BAD) and the history continues from the MODEL's state, so that the remaining events
 \* are examined too (the check counts only the first BAD of a history for the verdict; later ones may be
@@ -96,7 +108,7 @@ T_RetBad ==
     /\ Ev.fn \notin {"SetFilePointer", "OpenFileEx", "ExtractFile", "AddFile"}
     /\ PrintT(<<"BAD", tl, Why(Ev)>>)
     /\ tpend' = [tpend EXCEPT ![Ev.th] = FALSE]
-    /\ Advance /\ UNCHANGED <<vars, tkind>>
+    /\ Advance /\ UNCHANGED <<vars, tkind, tacq>>
 
 \* the Rust API's view of a writable archive after flush / compact replaces the model's session map
 \* (what the Rust API itself does with the file is C06's business, not C19's)
@@ -108,7 +120,7 @@ T_Sync ==
                ELSE PrintT(<<"DRIFT", tl, "Rust API view after flush/compact differs from the session map">>)
        ELSE UNCHANGED varch
     /\ Advance
-    /\ UNCHANGED <<vdisk, vcap, vlist, vfiles, vfinds, vnext, vlock, vpc, vfr, vret, vlast, vclosed, tpend, tkind>>
+    /\ UNCHANGED <<vdisk, vcap, vlist, vfiles, vfinds, vnext, vlock, vpc, vfr, vret, vlast, vclosed, tpend, tkind, tacq>>
 
 \* the Rust API's listing of a writable archive just before a listing call of a single-thread history: names
 \* obtained through the C API must equal it (when wow-mpq refreshes the read-only view behind a MutableArchive is
@@ -121,10 +133,13 @@ T_List ==
                ELSE PrintT(<<"DRIFT", tl, "Rust API listing of the writable archive differs from the modelled one">>)
        ELSE UNCHANGED varch
     /\ Advance
-    /\ UNCHANGED <<vdisk, vcap, vlist, vfiles, vfinds, vnext, vlock, vpc, vfr, vret, vlast, vclosed, tpend, tkind>>
+    /\ UNCHANGED <<vdisk, vcap, vlist, vfiles, vfinds, vnext, vlock, vpc, vfr, vret, vlast, vclosed, tpend, tkind, tacq>>
 
 T_Step == /\ tl <= Len(Rec)
-          /\ \E t \in Threads : tpend[t] /\ vpc[t] # "Idle" /\ Step(t)
+          /\ \E t \in Threads :
+                /\ tpend[t] /\ vpc[t] # "Idle" /\ Step(t)
+                /\ tacq' = [tacq EXCEPT ![t] = IF Requests(t) = "none" THEN @
+                                                ELSE Append(@, [l |-> Requests(t), held |-> HeldBy(t)])]
           /\ UNCHANGED <<tl, tpend, tkind>>
 
 TNext == \/ (tl <= Len(Rec) /\ (T_Reset \/ T_Inv \/ T_Ret \/ T_RetBad \/ T_Sync \/ T_List))
